@@ -26,7 +26,8 @@ Record Fops := mkFops {
   feqb : F -> F -> bool;
   fclose : F -> F -> bool;     (* equality of unit multipliers: exact over R, to 1e-9 over Q *)
   c_h : F;                     (* Planck constant, J*s  (SI) *)
-  c_mn : F                     (* neutron mass, kg      (SI) *)
+  c_mn : F;                    (* neutron mass, kg      (SI) *)
+  frint : F -> F               (* nearest integer, ties away from zero (scipp's to_unit on integer dtypes) *)
 }.
 
 Section Derived.
